@@ -6,6 +6,7 @@ import (
 	"fmt"
 	"log/slog"
 	"path/filepath"
+	"slices"
 	"strings"
 	"sync"
 
@@ -30,6 +31,7 @@ type Store struct {
 	retainedCheckpointsUpdated chan []uint64
 	state                      storeState
 	stateMu                    sync.Mutex
+	notifyMu                   sync.Mutex // serializes retained-checkpoint notifications
 	sourceSplitters            []connectors.SourceSplitter
 }
 
@@ -203,8 +205,15 @@ func (s *Store) finishSnapshotAsync(snap *jobSnapshot) (uri string, err error) {
 	// Accessing state to update completedSnapshots
 	s.stateMu.Lock()
 
+	// A later checkpoint may have been published while this one was still being
+	// written. Then this one is the obsolete one: it must not delete, replace or
+	// announce over the newer checkpoint.
+	superseded := slices.ContainsFunc(s.state.completedSnapshots, func(done *jobSnapshot) bool {
+		return done.id > snap.id
+	})
+
 	// When a new checkpoint is finished, all previous checkpoints are obsolete.
-	if len(s.state.completedSnapshots) > 0 {
+	if len(s.state.completedSnapshots) > 0 && !superseded {
 		obsoleteIDs := make([]uint64, 0, len(s.state.completedSnapshots))
 		for _, oldSnap := range s.state.completedSnapshots {
 			obsoleteIDs = append(obsoleteIDs, oldSnap.id)
@@ -224,13 +233,22 @@ func (s *Store) finishSnapshotAsync(snap *jobSnapshot) (uri string, err error) {
 		// Notify subscribers of new list of checkpoints to retain (just the completed one)
 		if s.retainedCheckpointsUpdated != nil {
 			go func() {
-				s.retainedCheckpointsUpdated <- []uint64{snap.id}
+				// One notification at a time, and none for a checkpoint that a
+				// newer one has replaced meanwhile, so that subscribers never see
+				// an older ID after a newer one.
+				s.notifyMu.Lock()
+				defer s.notifyMu.Unlock()
+				if s.isLatestCompleted(snap.id) {
+					s.retainedCheckpointsUpdated <- []uint64{snap.id}
+				}
 			}()
 		}
 	}
 
 	// Reset the completed snapshots to remove obsolete checkpoints
-	s.state.completedSnapshots = []*jobSnapshot{snap}
+	if !superseded {
+		s.state.completedSnapshots = []*jobSnapshot{snap}
+	}
 	s.stateMu.Unlock()
 
 	s.log.Info("store wrote checkpoint", "uri", uri)
@@ -243,6 +261,13 @@ func (s *Store) finishSnapshotAsync(snap *jobSnapshot) (uri string, err error) {
 		s.log.Info("store wrote savepoint", "uri", spURI)
 	}
 	return uri, nil
+}
+
+func (s *Store) isLatestCompleted(id uint64) bool {
+	s.stateMu.Lock()
+	defer s.stateMu.Unlock()
+	n := len(s.state.completedSnapshots)
+	return n > 0 && s.state.completedSnapshots[n-1].id == id
 }
 
 // CurrentCheckpoint returns the latest checkpoint from memory.
